@@ -114,4 +114,161 @@ theorem date_step_refines_explodeAll (E : Env) (c : DateCfg) (s s' : DateState) 
   obtain ⟨ry, rm, rd, hy, hm, hd, rfl, _⟩ := date_explode_all_members E c s s' x y m d ret hx hstep
   simp [explodeAll, scalarSet, hy, hm, hd]
 
+/-! ## members that raise (n3) -/
+
+theorem loopX_length (fs : List (MemberSetX M)) (ps : List Native) (olds : List M) :
+    (loopX fs ps olds).1.length = olds.length := by
+  induction fs generalizing ps olds with
+  | nil => simp [loopX]
+  | cons f fs ih =>
+    cases ps with
+    | nil => simp [loopX]
+    | cons p ps =>
+      cases olds with
+      | nil => simp [loopX]
+      | cons o olds =>
+        simp only [loopX]
+        cases hfp : f p with
+        | error e => simp
+        | ok r => obtain ⟨m, b⟩ := r; simp [ih ps olds]
+
+/-- **loopX_spec** — the member loop with members that may RAISE: the loop sets a PREFIX.  There is a `k` such
+    that members `0 … k-1` hold what their own `set(part)` leaves, members `k …` are untouched, and either the
+    loop completed (`k` = number of zipped triples) or member `k`'s own `set(part k)` raised exactly the
+    exception that ended the loop. -/
+theorem loopX_spec (fs : List (MemberSetX M)) (ps : List Native) (olds : List M) :
+    ∃ k, SetUpTo fs ps olds (loopX fs ps olds).1 k ∧
+      match (loopX fs ps olds).2 with
+      | none => k = min (min fs.length ps.length) olds.length
+      | some e => ∃ f p, fs[k]? = some f ∧ ps[k]? = some p ∧ k < olds.length ∧ f p = .error e := by
+  induction fs generalizing ps olds with
+  | nil => exact ⟨0, ⟨by simp [loopX], by intro i hi; omega, by intro i _; simp [loopX]⟩, by simp [loopX]⟩
+  | cons f fs ih =>
+    cases ps with
+    | nil => exact ⟨0, ⟨by simp [loopX], by intro i hi; omega, by intro i _; simp [loopX]⟩, by simp [loopX]⟩
+    | cons p ps =>
+      cases olds with
+      | nil => exact ⟨0, ⟨by simp [loopX], by intro i hi; omega, by intro i _; simp [loopX]⟩, by simp [loopX]⟩
+      | cons o olds =>
+        cases hfp : f p with
+        | error e =>
+          refine ⟨0, ⟨by simp [loopX, hfp], by intro i hi; omega, by intro i _; simp [loopX, hfp]⟩, ?_⟩
+          simp only [loopX, hfp]
+          exact ⟨f, p, rfl, rfl, by simp, hfp⟩
+        | ok r =>
+          obtain ⟨m, b⟩ := r
+          obtain ⟨k, ⟨hlen, hset, hrest⟩, hend⟩ := ih ps olds
+          refine ⟨k + 1, ⟨by simp [loopX, hfp, hlen], ?_, ?_⟩, ?_⟩
+          · intro i hi
+            cases i with
+            | zero => exact ⟨f, p, m, b, rfl, rfl, hfp, by simp [loopX, hfp]⟩
+            | succ j =>
+              obtain ⟨f', p', m', b', h1, h2, h3, h4⟩ := hset j (by omega)
+              exact ⟨f', p', m', b', by simpa using h1, by simpa using h2, h3, by simpa [loopX, hfp] using h4⟩
+          · intro i hi
+            cases i with
+            | zero => omega
+            | succ j => simpa [loopX, hfp] using hrest j (by omega)
+          · simp only [loopX, hfp]
+            cases hr : (loopX fs ps olds).2 with
+            | none => simp only [hr] at hend; simp only [List.length_cons]; omega
+            | some e =>
+              simp only [hr] at hend
+              obtain ⟨f', p', h1, h2, h3, h4⟩ := hend
+              exact ⟨f', p', by simpa using h1, by simpa using h2, by simpa using h3, h4⟩
+
+/-- **compound_set_swallows** — `Compound.set` around `explode`: it returns True exactly when nothing was
+    raised, False when a member raised (members as the loops left them — never an exception of a member
+    leaving `set()`), and the number of members never changes. -/
+theorem compound_set_swallows (fs : List (MemberSetX M)) (parts : Option (List Native)) (olds ms : List M) (flag : Bool)
+    (h : compoundSetX fs parts olds = .ok (ms, flag)) :
+    ms = (explodeX fs parts olds).1 ∧ ms.length = olds.length ∧
+    (flag = true ↔ (explodeX fs parts olds).2 = none) := by
+  have hlen : (explodeX fs parts olds).1.length = olds.length := by
+    unfold explodeX
+    cases parts with
+    | none => simp [loopX_length]
+    | some ps =>
+      simp only
+      split
+      · rw [loopX_length, loopX_length]
+      · exact loopX_length ..
+  unfold compoundSetX at h
+  cases he : (explodeX fs parts olds).2 with
+  | none =>
+    simp only [he, Except.ok.injEq, Prod.mk.injEq] at h
+    exact ⟨h.1.symm, h.1 ▸ hlen, by simp [h.2.symm]⟩
+  | some e =>
+    cases e with
+    | model r => simp [he] at h
+    | typeError =>
+      simp only [he, Except.ok.injEq, Prod.mk.injEq] at h
+      exact ⟨h.1.symm, h.1 ▸ hlen, by simp [h.2.symm]⟩
+    | other =>
+      simp only [he, Except.ok.injEq, Prod.mk.injEq] at h
+      exact ⟨h.1.symm, h.1 ▸ hlen, by simp [h.2.symm]⟩
+
+/-- the role of the `except Exception` of `Compound.set`: without it the same members make `set()` raise -/
+theorem noSwallow_fails :
+    ∃ (fs : List (MemberSetX Nat)) (parts : Option (List Native)) (olds : List Nat),
+      compoundSetX fs parts olds = .ok ([1, 0], false) ∧ compoundSetNoSwallow fs parts olds = .error .other :=
+  ⟨[fun _ => .ok (1, true), fun _ => .error .other], some [.none, .none], [0, 0], rfl, rfl⟩
+
+theorem fires_default (v : Native) : ({} : RaiseRule).fires v = none := by
+  cases v <;> simp [RaiseRule.fires]
+
+theorem memberSetX_default (E : Env) (k : Kind) (x : Native) :
+    memberSetX E k {} x = match setScalar E k x with
+      | .ok res => .ok (res.st, res.flag)
+      | .error e => .error (.model e) := by
+  unfold memberSetX
+  cases k with
+  | constrained child valid =>
+    simp only []
+    cases adapt E child x with
+    | error e => rfl
+    | ok ov => cases ov with
+      | none => rfl
+      | some v => simp only [fires_default]; rfl
+  | _ => rfl
+
+
+/-- **stepX_noRaise_eq_step** — with members that never raise (no `valid_value` that raises) the model with the
+    loops, the fallback and the swallowing `Compound.set` written out IS the step the earlier theorems speak
+    about (`DateState.step`, i.e. C04's `setElem` for the whole-element `set`), for whole-element and member `set`
+    (`set_flat` of raising members: compared at run time only). -/
+theorem stepX_noRaise_eq_step (E : Env) (c : DateCfg) (s : DateState) (op : DateOp) (hop : ∀ ps, op ≠ .setFlat ps) :
+    s.stepX E { toDateCfg := c } op = s.step E c op := by
+  cases op with
+  | set x =>
+    simp only [DateState.stepX, DateState.step, DateState.toElem, DateCfg.schema, Flatland.C04.setElem,
+      Flatland.C04.Proofs.scalarSetTrace_eq, DateCfgX.tables, memberSetX_default]
+    cases hx : adapt E (.date true) x with
+    | error r => rfl
+    | ok ov =>
+      cases ov with
+      | none =>
+        simp only [compoundSetX, explodeX, loopX, List.map, memberSetX_default]
+        cases hy : setScalar E c.ky .none <;> cases hm : setScalar E c.km .none <;> cases hd : setScalar E c.kd .none <;>
+          simp [ofList3, DateState.ofElem, hy, hm, hd]
+      | some v =>
+        cases v with
+        | none => rfl
+        | date y m d =>
+          simp only [compoundSetX, explodeX, loopX, List.map, memberSetX_default]
+          cases hy : setScalar E c.ky (.int y) <;> cases hm : setScalar E c.km (.int m) <;> cases hd : setScalar E c.kd (.int d) <;>
+            simp [ofList3, DateState.ofElem, hy, hm, hd]
+        | datetime y m d h mi sec us =>
+          simp only [compoundSetX, explodeX, loopX, List.map, memberSetX_default]
+          cases hy : setScalar E c.ky (.int y) <;> cases hm : setScalar E c.km (.int m) <;> cases hd : setScalar E c.kd (.int d) <;>
+            simp [ofList3, DateState.ofElem, hy, hm, hd]
+        | _ =>
+          simp only [compoundSetX, explodeX, loopX, List.map, memberSetX_default]
+          cases hy : setScalar E c.ky .none <;> cases hm : setScalar E c.km .none <;> cases hd : setScalar E c.kd .none <;>
+            simp [ofList3, DateState.ofElem, hy, hm, hd]
+  | member i x =>
+    simp only [DateState.stepX, DateState.step, ite_self, memberSetX_default]
+    cases setScalar E (if i = 0 then c.ky else if i = 1 then c.km else c.kd) x <;> simp [merr]
+  | setFlat pairs => exact absurd rfl (hop pairs)
+
 end Flatland.C18.Explode.Proofs
